@@ -116,7 +116,42 @@ func nnp(c *Case) {
 		}
 		hookTidOut = syscall.Gettid()
 	}
-	emit(map[string]any{"ev": "start", "pid": os.Getpid(), "uid": os.Getuid(), "tid": syscall.Gettid(), "before": snapshot()})
+	// a library that tries the system call a second time within one load is exposed to the schedule again at that point
+	judgedInstalls := 0
+	baseInstall := seccomp.VerifInstall
+	seccomp.VerifInstall = func(op uintptr, flags uint32, prog []syscall.SockFilter) {
+		baseInstall(op, flags, prog)
+		if !judging {
+			return
+		}
+		judgedInstalls++
+		if judgedInstalls < 2 {
+			return
+		}
+		switch nc.Mode {
+		case "migrate":
+			forceMigrate()
+		case "gosched", "busy":
+			for i := 0; i < 200; i++ {
+				runtime.Gosched()
+			}
+			time.Sleep(2 * time.Millisecond)
+		}
+	}
+	outerErr := ""
+	if nc.Prior == "outer-einval-on-log-flag" {
+		// an environment: every thread of the process is under a filter that answers EINVAL to an installation that asks
+		// for the log flag (as a kernel before 4.14 does)
+		judging = false
+		outerErr = errString(seccomp.LoadFilter(seccomp.Filter{Flag: seccomp.FilterFlagTSync, Policy: seccomp.Policy{DefaultAction: seccomp.ActionAllow,
+			Syscalls: []seccomp.SyscallGroup{{NamesWithCondtions: []seccomp.NameWithConditions{{Name: "seccomp", Conditions: seccomp.ArgumentConditions{
+				{Argument: 0, Operation: seccomp.Equal, Value: 1}, {Argument: 1, Operation: seccomp.BitsSet, Value: 2}}}}, Action: seccomp.ActionErrno | 22}}}}))
+		judging = true
+		instMu.Lock()
+		installs = nil
+		instMu.Unlock()
+	}
+	emit(map[string]any{"ev": "start", "pid": os.Getpid(), "uid": os.Getuid(), "tid": syscall.Gettid(), "before": snapshot(), "outer_err": outerErr})
 	f := buildFilter(c)
 	if nc.CallerLocked {
 		runtime.LockOSThread()
